@@ -1,0 +1,124 @@
+//! Verification hooks. Compiled only with `--cfg undermoon_verif`.
+//!
+//! Everything in here is passive: unless an external harness registers a
+//! callback, every function returns its "real" argument unchanged or does
+//! nothing.
+use chrono::{DateTime, Utc};
+use std::io;
+use std::net::SocketAddr;
+use std::pin::Pin;
+use std::sync::OnceLock;
+use std::task::{Context, Poll};
+use tokio::io::{AsyncRead, AsyncWrite, ReadBuf};
+
+static SCHED_POINT: OnceLock<fn(&'static str)> = OnceLock::new();
+static UTC_NOW: OnceLock<fn() -> DateTime<Utc>> = OnceLock::new();
+static MAX_EPOCH: OnceLock<fn() -> Option<u64>> = OnceLock::new();
+
+pub fn register_sched_point(f: fn(&'static str)) -> bool {
+    SCHED_POINT.set(f).is_ok()
+}
+
+pub fn register_utc_now(f: fn() -> DateTime<Utc>) -> bool {
+    UTC_NOW.set(f).is_ok()
+}
+
+pub fn register_max_epoch(f: fn() -> Option<u64>) -> bool {
+    MAX_EPOCH.set(f).is_ok()
+}
+
+/// A point at which a controlled scheduler may switch threads.
+#[inline]
+pub fn sched_point(name: &'static str) {
+    if let Some(f) = SCHED_POINT.get() {
+        f(name)
+    }
+}
+
+/// The wall clock as seen by the broker.
+pub fn utc_now(real: DateTime<Utc>) -> DateTime<Utc> {
+    match UTC_NOW.get() {
+        Some(f) => f(),
+        None => real,
+    }
+}
+
+/// Whether epoch recovery should skip contacting proxies over TCP.
+pub fn max_epoch_injected() -> bool {
+    MAX_EPOCH.get().is_some()
+}
+
+/// The largest proxy epoch as collected by the harness (instead of TCP).
+pub fn injected_max_epoch(real: u64) -> u64 {
+    match MAX_EPOCH.get().and_then(|f| f()) {
+        Some(e) => e,
+        None => real,
+    }
+}
+
+pub trait SimIo: AsyncRead + AsyncWrite + Send + Unpin {}
+impl<T: AsyncRead + AsyncWrite + Send + Unpin> SimIo for T {}
+
+/// Stands in for `tokio::net::TcpStream` in `handle_session` so that the
+/// session loop can be driven over an in-memory byte stream.
+pub enum SimStream {
+    Tcp(tokio::net::TcpStream),
+    Sim(Box<dyn SimIo>),
+}
+
+impl SimStream {
+    pub fn from_tcp(sock: tokio::net::TcpStream) -> Self {
+        Self::Tcp(sock)
+    }
+
+    pub fn from_io<T: SimIo + 'static>(io: T) -> Self {
+        Self::Sim(Box::new(io))
+    }
+
+    pub fn peer_addr(&self) -> io::Result<SocketAddr> {
+        match self {
+            Self::Tcp(s) => s.peer_addr(),
+            Self::Sim(_) => Err(io::Error::new(io::ErrorKind::Other, "simulated stream")),
+        }
+    }
+}
+
+impl AsyncRead for SimStream {
+    fn poll_read(
+        self: Pin<&mut Self>,
+        cx: &mut Context<'_>,
+        buf: &mut ReadBuf<'_>,
+    ) -> Poll<io::Result<()>> {
+        match self.get_mut() {
+            Self::Tcp(s) => Pin::new(s).poll_read(cx, buf),
+            Self::Sim(s) => Pin::new(s).poll_read(cx, buf),
+        }
+    }
+}
+
+impl AsyncWrite for SimStream {
+    fn poll_write(
+        self: Pin<&mut Self>,
+        cx: &mut Context<'_>,
+        buf: &[u8],
+    ) -> Poll<io::Result<usize>> {
+        match self.get_mut() {
+            Self::Tcp(s) => Pin::new(s).poll_write(cx, buf),
+            Self::Sim(s) => Pin::new(s).poll_write(cx, buf),
+        }
+    }
+
+    fn poll_flush(self: Pin<&mut Self>, cx: &mut Context<'_>) -> Poll<io::Result<()>> {
+        match self.get_mut() {
+            Self::Tcp(s) => Pin::new(s).poll_flush(cx),
+            Self::Sim(s) => Pin::new(s).poll_flush(cx),
+        }
+    }
+
+    fn poll_shutdown(self: Pin<&mut Self>, cx: &mut Context<'_>) -> Poll<io::Result<()>> {
+        match self.get_mut() {
+            Self::Tcp(s) => Pin::new(s).poll_shutdown(cx),
+            Self::Sim(s) => Pin::new(s).poll_shutdown(cx),
+        }
+    }
+}
